@@ -1167,6 +1167,11 @@ func (c *FnCtx) applyContract(bc *blockCtx, spec *FuncSpec, cc *ssa.CallCommon, 
 		}
 	}
 	for i, en := range append(append([]Clause(nil), spec.Ensures...), spec.TrustedEnsures...) {
+		if strings.Contains(en.Text, "event(") {
+			// event counters count the calls made by the function that owns the contract; a clause
+			// about them says nothing about the caller's counters and is not exported
+			continue
+		}
 		t, err := post.evalAssume(en.E)
 		if err != nil {
 			c.contractStale("call:"+label+":ensures:"+clauseName(en, i), en.Pos, err, nil)
